@@ -1,0 +1,25 @@
+//go:build verif
+
+// Verification hook for the token-introspection rate limiter (property C26).
+// Compiled only with -tags verif; changes no behaviour of the unguarded code.
+
+package vgirpc
+
+import "time"
+
+// VerifC26IntrospectIdle makes d of idle time pass for the introspection rate
+// limiter of h. The limiter reads time.Now() directly and only ever compares
+// it with its stored windowStart, so moving windowStart back by d is exactly
+// "d has elapsed with no introspection request" (the same data-shift used for
+// token lifetimes in verif_tokens.go). Takes the limiter's own mutex.
+// Returns false when introspection is not enabled.
+func VerifC26IntrospectIdle(h *HttpServer, d time.Duration) bool {
+	if h.introspect == nil || h.introspect.limiter == nil {
+		return false
+	}
+	l := h.introspect.limiter
+	l.mu.Lock()
+	l.windowStart = l.windowStart.Add(-d)
+	l.mu.Unlock()
+	return true
+}
